@@ -71,6 +71,9 @@ def run(ctx):
             ctx.check(S.bb in loop and all(nx.bb in dom.get(S.bb, ()) for nx in nxs[:1]), P, "step-in-loop", "the counter is stepped only inside the loop over the selected entries", S.where())
             others = [c for b in facts.non_test_bodies() for c in b.calls_to(RMW + r"|atomic::Atomic::<u32>::store$") if b.id != m.id]
             ctx.check(not others, P, "no-other-step", "nothing else modifies the counter (%s)" % ([c.where() for c in others] or "none"), m.where())
+    # a second edit run (and --check) must look at the same files: the discovered list is never filtered
+    from .c01 import rule_file_list_immutable
+    rule_file_list_immutable(ctx, facts, "C06-R4")
     # selection + early exit (C05/C03 pieces)
     from .c03 import c05_run_r1_insert
     c05_run_r1_insert(_Only(ctx, "C06-R4", ("table|insert", "extra-condition|insert", "early-exit-first", "loop-filtered")), facts)
